@@ -147,6 +147,7 @@ type Unit struct {
 	closureBlocks map[string]*Block
 	litScope    *ast.FuncLit
 	letWitness  int
+	inDefer     int
 	curPos      token.Pos
 }
 
